@@ -43,6 +43,8 @@ type globalFacts struct {
 	mapK   []int64 // map literal with constant integer keys and values
 	mapV   []int64
 	mapS   []string // map literal with constant string keys (values in mapV)
+	isInt  bool     // integer variable initialised by a constant expression
+	intVal int64
 }
 
 func NewEngine(P *Program, S *Specs) *Engine {
@@ -262,6 +264,11 @@ func rootGlobal(v ssa.Value) *ssa.Global {
 func literalFacts(info *types.Info, e ast.Expr) *globalFacts {
 	if tv, ok := info.Types[e]; ok && tv.Value != nil && tv.Value.Kind() == constant.String {
 		return &globalFacts{n: int64(len(constant.StringVal(tv.Value))), isStr: true, str: constant.StringVal(tv.Value)}
+	}
+	if tv, ok := info.Types[e]; ok && tv.Value != nil && tv.Value.Kind() == constant.Int {
+		if v, exact := constant.Int64Val(tv.Value); exact {
+			return &globalFacts{isInt: true, intVal: v}
+		}
 	}
 	// []byte("...") conversion
 	if call, ok := e.(*ast.CallExpr); ok && len(call.Args) == 1 {
@@ -902,6 +909,12 @@ func (fx *fx) loadGlobal(st *State, g *ssa.Global) Value {
 			case KArray:
 				if gf.elems != nil && gf.n <= 512 {
 					fx.globalElems(v.T, under(T).(*types.Array).Elem(), gf.elems)
+				}
+			case KInt:
+				if gf.isInt {
+					if bt, ok := under(T).(*types.Basic); ok && bt.Info()&types.IsInteger != 0 {
+						fx.enc.Assume(Eq(v.T, Num(gf.intVal)))
+					}
 				}
 			case KString:
 				if gf.isStr {
